@@ -295,6 +295,7 @@ func c12CheckRepair(in []gts.Feature, what string) (ok bool, sig, detail string)
 		}
 		return false, "repair-panic", what + ": Repair panics: " + msg
 	}
+	engine.Outcome(strings.Join(featureMultiset(out), "&"))
 	_, oclasses := splitClasses(out)
 	for k := range oclasses {
 		if _, known := classes[k]; !known {
